@@ -9,6 +9,7 @@ PATTERNS = [
     r"celeritas::(Transformation|Translation|NoTransformation)::(transform|rotate)_(up|down)",
     r"celeritas::detail::LogicStack::",
     r"celeritas::detail::(MscStepFromGeo|MscStepToGeo)::operator\(\)",
+    r"celeritas::detail::SurfaceTranslator::operator\(\)",
 ]
 
 
